@@ -337,8 +337,9 @@ func (fi *FuncInfo) EdgeFacts(a, b *ssa.BasicBlock) []Fact {
 // result is nil (error results) or true (bool results), expressed over the
 // callee's parameters ($pN), results ($retN) and entry-version loads.
 type RetSummary struct {
-	Fn   *ssa.Function
-	When map[int][]Fact // result index -> facts
+	Fn        *ssa.Function
+	When      map[int][]Fact // result index -> facts that hold when the result is nil / true
+	WhenFalse map[int][]Fact // bool results: facts that hold when the result is false
 }
 
 func (p *Program) retSummary(fn *ssa.Function, depth int) *RetSummary {
@@ -421,7 +422,7 @@ func (p *Program) buildRetSummary(fn *ssa.Function, depth int) *RetSummary {
 		return nil
 	}
 	res := fn.Signature.Results()
-	s := &RetSummary{Fn: fn, When: map[int][]Fact{}}
+	s := &RetSummary{Fn: fn, When: map[int][]Fact{}, WhenFalse: map[int][]Fact{}}
 	interesting := false
 	for i := 0; i < res.Len(); i++ {
 		if isErrorType(res.At(i).Type()) || isBoolType(res.At(i).Type()) {
@@ -492,6 +493,46 @@ func (p *Program) buildRetSummary(fn *ssa.Function, depth int) *RetSummary {
 		sort.Strings(keys)
 		for _, k := range keys {
 			s.When[i] = append(s.When[i], acc[k])
+		}
+		if !isBool {
+			continue
+		}
+		// the mirror image: what holds whenever the boolean result is false
+		var accF map[string]Fact
+		firstF := true
+		for _, b := range fn.Blocks {
+			if len(b.Instrs) == 0 || b == b.Parent().Recover {
+				continue
+			}
+			ret, ok := b.Instrs[len(b.Instrs)-1].(*ssa.Return)
+			if !ok || i >= len(ret.Results) {
+				continue
+			}
+			if c, isC := fi.Term(ret.Results[i]).IsConst(); isC && c == "true" {
+				continue
+			}
+			fiF, possible := fi.falseImplies(ret.Results[i], 0)
+			if !possible {
+				continue
+			}
+			exported := fi.exportFacts(ret, i, fiF...)
+			if firstF {
+				accF, firstF = exported, false
+			} else {
+				for k := range accF {
+					if _, ok := exported[k]; !ok {
+						delete(accF, k)
+					}
+				}
+			}
+		}
+		keys = keys[:0]
+		for k := range accF {
+			keys = append(keys, k)
+		}
+		sort.Strings(keys)
+		for _, k := range keys {
+			s.WhenFalse[i] = append(s.WhenFalse[i], accF[k])
 		}
 	}
 	return s
@@ -774,6 +815,7 @@ func exportable(t *Term) bool {
 func (fi *FuncInfo) expandFact(f Fact, depth int) []Fact {
 	var callT *Term
 	idx := 0
+	whenFalse := false
 	t := f.T
 	switch {
 	case !f.Neg && t.K == KBin && t.S == "==":
@@ -799,6 +841,13 @@ func (fi *FuncInfo) expandFact(f Fact, depth int) []Fact {
 		if callT == nil {
 			return nil
 		}
+	case f.Neg && (t.K == KCall || t.K == KPure || t.K == KExt):
+		// a boolean result that is false
+		callT, idx = callOfResult(t)
+		if callT == nil || t.Typ == nil || !isBoolType(t.Typ) {
+			return nil
+		}
+		whenFalse = true
 	default:
 		return nil
 	}
@@ -815,7 +864,11 @@ func (fi *FuncInfo) expandFact(f Fact, depth int) []Fact {
 		return nil
 	}
 	var out []Fact
-	for _, sf := range sum.When[idx] {
+	src := sum.When[idx]
+	if whenFalse {
+		src = sum.WhenFalse[idx]
+	}
+	for _, sf := range src {
 		if inst := fi.instantiate(sf, call); inst != nil {
 			out = append(out, *inst)
 		}
